@@ -139,7 +139,7 @@ def fixed_names(run, P, classes, rule="C08.reads"):
         raise AnalysisError("fixed_names: statement handlers not found")
     # the same for everything else that can run while a statement is executing: only the
     # driver (set_up / run, between statements) names store entries itself
-    drivers = {"set_up", "run"}
+    drivers = {"set_up", "run", "run_single_step"}      # nested functions of these are not exempt
     others = []
     n_units = 0
 
@@ -149,9 +149,9 @@ def fixed_names(run, P, classes, rule="C08.reads"):
             yield from units_of(g_)
 
     for name, f in sorted(interp.methods.items()):
-        if name in drivers or f.cls is not interp:
+        if f.cls is not interp:
             continue
-        for u in units_of(f):
+        for u in (list(units_of(f))[1:] if name in drivers else units_of(f)):
             n_units += 1
             for x in ast.walk(u.node):
                 fixed = None
@@ -169,7 +169,7 @@ def fixed_names(run, P, classes, rule="C08.reads"):
                 if fixed is not None:
                     others.append((u, fixed))
     run.ob(rule, others[0][0] if others else interp, others[0][1] if others else None, not others,
-           construct=f"outside set_up / run no code of the interpreter ({n_units} functions) touches "
+           construct=f"outside the drivers (set_up / run / run_single_step, between statements) no code of the interpreter ({n_units} functions) touches "
                      f"a store entry under a fixed name"
                      + (f" (found {norm(others[0][1], 40)} in {others[0][0].qualname})" if others else ""),
            why="a helper or wrapper that runs in the middle of a statement and looks at '<t>' "
@@ -308,6 +308,20 @@ def _mapper_config(run, P):
                        "and none of 'z'")
             calls = get("include_calls")
             ok = _descends(calls, fn)
+            if not ok:
+                # a construction that only runs when the caller asked for another
+                # configuration (a flag parameter whose default is False) is not the default
+                from .util import path_conditions
+                holder = next((s_ for s_ in ast.walk(fn.node) if isinstance(s_, ast.stmt)
+                               and not isinstance(s_, (ast.If, ast.For, ast.While, ast.Try, ast.With,
+                                                       ast.FunctionDef))
+                               and any(y is c for y in ast.walk(s_))), None)
+                a_ = fn.node.args
+                dflt_false = {x.arg for x, d_ in zip(reversed(a_.args), reversed(a_.defaults))
+                              if isinstance(d_, ast.Constant) and d_.value is False}
+                if holder is not None and any(t_ in dflt_false and pol is True
+                                              for t_, pol in path_conditions(fn.node, holder)):
+                    continue
             run.ob("C08.mapper", fn, c, ok,
                    construct=f"include_calls={norm(calls) if calls else 'default'}",
                    why="the default configuration must descend into call "
